@@ -8,7 +8,7 @@ Snt(o) == [name |-> "sent", o |-> o]
 \* window 4, initially sent = 4, acked = 0: a credit waiter for 2 bytes is blocked;
 \* ack(0,1) releases too little, ack(0,4) enough, ack(1,4) is for another file;
 \* resume(0,4) is at the trailing edge (frees credit), resume(0,0) re-stages the start
-OpsFull == {Ack(0, 1), Ack(0, 4), Ack(1, 4), Cnl("a"), Adv(1), Res(0, 0), Res(0, 4), Snt(6)}
+OpsFull == {Ack(0, 1), Ack(0, 4), Ack(1, 4), Cnl("a"), Adv(1), Adv(0), Res(0, 0), Res(0, 4), Snt(6), Snt(8)}
 OpsSmall == {Ack(0, 1), Ack(0, 4), Cnl("a"), Adv(1), Res(0, 4), Snt(6)}
 AllNotifiers == {"ack", "cancel", "advance", "resume"}
 NoAck == AllNotifiers \ {"ack"}
